@@ -47,6 +47,7 @@ func runC09(e *Env) error {
 				Broken: "C09 regression corpus (C09_falsy_table / C09_loop_meta / C09_nested / C09_set_visible)", Replay: map[string]any{"kind": "src", "src": c.src, "want": c.want, "got": res.Out, "class": res.Class}})
 		}
 	}
+	c09TruthTable(e)
 	// implementation-only: loop metadata for every length 0..6 (thorough: 0..40), lists and strings and ranges
 	maxLen := e.N(6, 40)
 	for n := 0; n <= maxLen && !r.Full(); n++ {
